@@ -630,9 +630,11 @@ func (ndb *nodeDB) DeleteVersionsFrom(fromVersion int64) error {
 		if err := ndb.traverseRange(legacyRootKeyFormat.Key(fromVersion), legacyRootKeyFormat.Key(legacyLatestVersion+1), func(k, v []byte) error {
 			var version int64
 			legacyRootKeyFormat.Scan(k, &version)
-			// delete the legacy nodes
-			if err := ndb.deleteLegacyNodes(version, v); err != nil {
-				return err
+			// delete the legacy nodes (the root value of an empty tree is empty: there is no node)
+			if len(v) > 0 {
+				if err := ndb.deleteLegacyNodes(version, v); err != nil {
+					return err
+				}
 			}
 			// it will skip the orphans because orphans will be removed at once in `deleteLegacyVersions`
 			// delete the legacy root
